@@ -78,6 +78,7 @@ type Exec struct {
 	curReach        string
 	pureLets        [][2]string
 	callerFrame     *frame
+	lastArgTypes    map[string]types.Type
 	letDepth        int
 	qrec            map[string]*qRecord
 }
@@ -92,7 +93,7 @@ type qRecord struct {
 func newExec(w *World, u *Unit) *Exec {
 	ex := &Exec{w: w, unit: u, declared: map[string]string{}, keySort: map[string]string{}, defCache: map[string]string{},
 		used: map[string]bool{}, strs: map[string]string{}, loopMods: map[string]map[string]bool{}, loopAll: map[string]bool{}, oblCount: map[string]int{},
-		cellFuncs: map[string]*FuncInfo{}, calledContracts: map[*Contract]bool{}, coverAcc: map[string][]string{}, sentinels: map[string]types.Type{}, qrec: map[string]*qRecord{}, curReach: "true"}
+		cellFuncs: map[string]*FuncInfo{}, calledContracts: map[*Contract]bool{}, coverAcc: map[string][]string{}, sentinels: map[string]types.Type{}, qrec: map[string]*qRecord{}, curReach: "true", lastArgTypes: map[string]types.Type{}}
 	ex.baseInit = &Base{id: 0}
 	ex.declare("str_empty", sStr)
 	return ex
@@ -229,6 +230,10 @@ func (ex *Exec) registerKey(key, sort string) {
 }
 
 func (ex *Exec) defaultTerm(key string, b *Base) string {
+	if strings.HasPrefix(key, "X|") {
+		// ghost state is never forgotten implicitly: only explicit updates change it
+		b = ex.baseInit
+	}
 	ck := fmt.Sprintf("%d|%s", b.id, key)
 	if t, ok := ex.defCache[ck]; ok {
 		return t
